@@ -24,10 +24,13 @@ git apply --check $M/patch.diff || { echo "RESULT patch does not apply"; exit 1;
 # demo without the change must pass
 cp $DEMOFILE $DEMODIR/
 RUN=$(grep -o 'func Test[A-Za-z0-9_]*' $DEMOFILE | sed 's/func //' | paste -sd'|')
-go test -count=1 -run "^($RUN)\$" ./$DEMODIR/ > /tmp/vs/$NAME.without 2>&1; W=$?
+DEMOTARGET=./$DEMODIR/
+# gnmidiff's own tests do not build in this tree (empty exampleoc): run the demo in file mode
+if [ "$DEMODIR" = "gnmidiff" ]; then DEMOTARGET=./$DEMODIR/$(basename $DEMOFILE); PKGS=$(echo $PKGS | sed 's#\./gnmidiff##'); fi
+go test -count=1 -run "^($RUN)\$" $DEMOTARGET > /tmp/vs/$NAME.without 2>&1; W=$?
 git apply $M/patch.diff
 go build ./... 2>&1 | grep -v exampleoc | head -5
-go test -count=1 -run "^($RUN)\$" ./$DEMODIR/ > /tmp/vs/$NAME.with 2>&1; WI=$?
+go test -count=1 -run "^($RUN)\$" $DEMOTARGET > /tmp/vs/$NAME.with 2>&1; WI=$?
 rm -f $DEMODIR/$(basename $DEMOFILE)
 # existing tests of touched packages and main dependents
 go test -count=1 $PKGS ./ygot/ ./ytypes/ ./util/ 2>&1 | grep -v "^ok" | head -20;
